@@ -98,6 +98,29 @@ def check_state(rec, B, tg, tp, r, rng, nsamp=40, uniform=False):
             stat, dof, tail = stats.chi2_tail(counts)
             rec.check("sample.uniform", len(keys) <= M and tail > stats.ALPHA, sc, True, expected="chi-square tail > 1e-9 over %d elements" % M,
                       observed={"distinct": len(keys), "chi2": stat, "tail": tail, "n": n})
+    # ---- uniformity at every row position of many SHORT calls (the last rows of a call are as random as the first)
+    if uniform and 1 <= k <= 4:
+        M = 2 ** k
+        Ls = 5
+        reps = 40 * M
+        pos = [dict() for _ in range(Ls)]
+        ok_all = True
+        for _ in range(reps):
+            ok, L = rec.attempt("sample.uniform.rows", sc, lambda: S.sample(Ls))
+            if not ok:
+                ok_all = False
+                break
+            sg, _ = B.gsps(L)
+            for j in range(Ls):
+                t = sg[j].tobytes()
+                pos[j][t] = pos[j].get(t, 0) + 1
+        if ok_all:
+            tails = []
+            for j in range(Ls):
+                counts = list(pos[j].values()) + [0] * (M - len(pos[j]))
+                tails.append(stats.chi2_tail(counts)[2])
+            rec.check("sample.uniform.rows", min(tails) > stats.ALPHA, sc, True, expected="chi-square tail > 1e-9 at each of %d row positions" % Ls,
+                      observed={"tails": tails, "calls": reps})
     # ---- density-matrix expansion
     if k <= 7:
         ok, DM = rec.attempt("dm", sc, lambda: S.density_matrix)
